@@ -13,13 +13,34 @@ MODES = ("fully_obs", "flat_actions", "flat_obs")
 
 
 def env_setup(I, kind, limit=None):
-    """NASimEnv object over the symbolic scenario; returns (sig, T, state, env, action record)"""
-    sig, T, st, net, a = dyn_setup(I, kind)
+    """NASimEnv object over the symbolic scenario; returns (sig, T, state, env, action record).
+    The environment is built by symbolically running the REAL NASimEnv.__init__ (so fields a refactoring adds
+    there exist as the code computes them); the three fields that make up the episode state (current_state,
+    last_obs, steps) are then replaced by arbitrary well-formed symbolic values, and any other field that a method
+    other than __init__ writes is havoced and marked hidden (reading it fails reads-no-hidden-mutable-state)."""
+    from .c_layout import havoc_class_state
+    from pyvc import builtins as B_
+    sig, T, st, net, a = dyn_setup(I, kind, with_layout=False)
     envcls = I.repo.cls("nasim.envs.environment.NASimEnv")
-    sccls = I.repo.cls("nasim.scenarios.scenario.Scenario")
     obscls = I.repo.cls("nasim.envs.observation.Observation")
-    sd = PyDict({"step_limit": None if limit is None else mk(sig.step_limit, "int")}, fresh=False)
-    scen = Obj(sccls, {"scenario_dict": sd, "name": "scn"}, fresh=False, label="scenario")
+    # the constructor: arbitrary previous global layout, scenario of this Sigma
+    havoc_class_state(I)
+    INF = z3.Real("INF")
+    B_.INF_SYMBOL = INF
+    I.ctx.assume(sig.forall_hosts(lambda i: z3.And(-INF < sig.hval(ival(i)), sig.hval(ival(i)) < INF,
+                                                   -INF < sig.dval(ival(i)), sig.dval(ival(i)) < INF), "inf"))
+    I.ctx.assume(INF > 0)
+    scen = sig.scenario_obj(I, limit=limit)
+    env = Obj(envcls, {}, fresh=True, label="env")
+    modes = {m: SymV(z3.Bool(m), "bool") for m in MODES}
+    mem = I.find_member(envcls, "__init__")
+    saved_obl = len(I.ctx.obligations)
+    I.call_function(mem[1], [env, scen], dict(modes))
+    del I.ctx.obligations[saved_obl:]          # the constructor's own obligations belong to its contract (EnvInit)
+    B_.INF_SYMBOL = None
+    env.fresh = False
+    sig.install_layout(I)                      # post of the constructor (proved by EnvInit / GenerateInitialState)
+    env.fields["network"] = net
     L = sig.layout()
     Tc = z3.Const("T_current", A2)
     cur = V.state_obj(I, sig, Tc, fresh=False, label="current_state")
@@ -28,12 +49,15 @@ def env_setup(I, kind, limit=None):
     ocell = NpCell(O, (ival(sig.N) + 1, L.W), fresh=False, label="last_obs.tensor")
     last = Obj(obscls, {"obs_shape": (mk(ival(sig.N) + 1, "int"), mk(L.W, "int")), "aux_row": mk(ival(sig.N), "int"),
                         "tensor": NpArr(ocell)}, fresh=False, label="last_obs")
-    fields = {"name": "scn", "scenario": scen, "network": net, "current_state": cur, "last_obs": last,
-              "steps": mk(z3.Int("steps0"), "int"), "_renderer": None, "render_mode": None,
-              "action_space": Obj(I.repo.cls("nasim.envs.action.FlatActionSpace"), {}, fresh=False, label="action_space")}
-    for m in MODES:
-        fields[m] = SymV(z3.Bool(m), "bool")
-    env = Obj(envcls, fields, fresh=False, label="env")
+    env.fields.update(current_state=cur, last_obs=last, steps=mk(z3.Int("steps0"), "int"))
+    env.fields["action_space"] = Obj(I.repo.cls("nasim.envs.action.FlatActionSpace"), {}, fresh=False, label="action_space")
+    env.hidden = set()
+    for name in V.mutable_fields(envcls) - {"current_state", "last_obs", "steps"}:
+        if name in env.fields:
+            env.fields[name] = V.havoc_like(I, env.fields[name], "env_" + name)
+            env.hidden.add(name)
+    I.ctx.writes[:] = []
+    I.ctx.draws[:] = []
     if limit is not None:
         I.ctx.assume(sig.step_limit > 0)
     I.ctx.assume(z3.Int("steps0") >= 0)
